@@ -11,9 +11,10 @@
      * rows of the real matrices [displacement_divergence | boundary_displacement_divergence]
        (one per cell) and scalar_gradient (one per face component);
      * checkers: every cell row applied to the basis field  e_k x_l  gives
-       alpha * delta_kl * |K|, applied to  e_k  gives 0; every scalar-gradient row sums to
-       -alpha * n_{f,k}; the geometric identities  sum_f s n_f = 0  and
-       sum_f s x_f n_f^T = |K| I  hold per cell on the real geometry arrays.
+       alpha_kl * |K| (alpha the symmetric coupling tensor; alpha * delta_kl for a scalar
+       coefficient), applied to  e_k  gives 0; every scalar-gradient row sums to -(alpha n_f)_k; the geometric identities  sum_f s n_f = 0  and
+       sum_f s x_f n_f^T = |K| I  hold per cell on the real geometry arrays (checked only when
+       i_planar: they are NOT expected of grids with non-planar faces).
    Executable definitions only. *)
 From Coq Require Import List ZArith QArith Qabs Bool Arith.
 Import ListNotations.
@@ -22,7 +23,8 @@ Local Open Scope Q_scope.
 
 Record inst := mk_inst {
   i_nd : nat;  i_nc : nat;  i_nf : nat;
-  i_alpha : Q;                         (* scalar_vector_mappings[key] *)
+  i_alpha : list (list Q);             (* coupling tensor alpha.values[:, :, 0], 3 x 3 symmetric
+                                          (a scalar coupling coefficient a is a * I) *)
   i_cc : list (list Q);                (* sd.cell_centers[:nd, c] *)
   i_fc : list (list Q);                (* sd.face_centers[:nd, f] *)
   i_normals : list (list Q);           (* sd.face_normals[:nd, f] *)
@@ -58,15 +60,21 @@ Definition nparam (I : inst) : nat := i_nd I * i_nd I + i_nd I.
 (* u = A x + b with theta = [A row-major; b] *)
 Definition ustate (I : inst) (theta : list Q) : vec := lin_state (basis I) theta.
 
+Definition al (I : inst) (k l : nat) : Q := nth l (nth k (i_alpha I) []) 0.
+
+(* alpha : grad(e_k x_l) * |K| = alpha_kl |K| *)
 Definition div_target (I : inst) (c m : nat) : Q :=
-  if m <? i_nd I * i_nd I then
-    (if m / i_nd I =? m mod i_nd I then i_alpha I * nth c (i_vols I) 0 else 0)
+  if m <? i_nd I * i_nd I then al I (m / i_nd I) (m mod i_nd I) * nth c (i_vols I) 0
   else 0.
 
 Definition ones : vec := fun _ => 1.
 
-Definition grad_target (I : inst) (q : nat) : Q :=
-  - i_alpha I * coord (i_normals I) (q / i_nd I) (q mod i_nd I).
+(* component k of alpha n_f (normals of 2-D grids have no third component) *)
+Definition alpha_n (I : inst) (f k : nat) : Q :=
+  al I k 0 * coord (i_normals I) f 0 + al I k 1 * coord (i_normals I) f 1
+  + al I k 2 * coord (i_normals I) f 2.
+
+Definition grad_target (I : inst) (q : nat) : Q := - alpha_n I (q / i_nd I) (q mod i_nd I).
 
 (* signed sums over the faces of a cell *)
 Fixpoint isum (ic : list (nat * Q)) (g : nat -> Q) : Q :=
@@ -150,3 +158,34 @@ Definition mrow (i : nat) (A : m3) : v3 :=
 (* N_i = sum_f s n_{f,i} ;  M_ij = sum_f s x_{f,j} n_{f,i} *)
 Definition Nrm (fs : list face) (i : nat) : Q := fsum fs (fun f => cmp i (f_n f)).
 Definition Mom (fs : list face) (i j : nat) : Q := fsum fs (fun f => cmp j (f_x f) * cmp i (f_n f)).
+
+(* the signed faces of cell c of an instance, as consumed by face_div *)
+Definition v3_of (l : list Q) : v3 := (nth 0 l 0, nth 1 l 0, nth 2 l 0).
+Definition cell_faces_of (I : inst) (c : nat) : list face :=
+  map (fun fs => (snd fs, v3_of (nth (fst fs) (i_normals I) []), v3_of (nth (fst fs) (i_fc I) [])))
+      (nth c (i_inc I) []).
+
+(* tolerances of the geometric identities of cell c as checked by geo_ok *)
+Definition eps_mom (tol : Q) (I : inst) (c i j : nat) : Q :=
+  tol * (1 + iabs (nth c (i_inc I) []) (fun f => coord (i_fc I) f j * coord (i_normals I) f i)).
+Definition eps_nrm (tol : Q) (I : inst) (c i : nat) : Q :=
+  tol * (1 + iabs (nth c (i_inc I) []) (fun f => coord (i_normals I) f i)).
+
+(* indexed like theta = [a00 a01 a02 a10 a11 a12 a20 a21 a22 b0 b1 b2] (3-D) *)
+Definition geo_eps3 (tol : Q) (I : inst) (c m : nat) : Q :=
+  match m with
+  | 0%nat => eps_mom tol I c 0 0 | 1%nat => eps_mom tol I c 0 1 | 2%nat => eps_mom tol I c 0 2
+  | 3%nat => eps_mom tol I c 1 0 | 4%nat => eps_mom tol I c 1 1 | 5%nat => eps_mom tol I c 1 2
+  | 6%nat => eps_mom tol I c 2 0 | 7%nat => eps_mom tol I c 2 1 | 8%nat => eps_mom tol I c 2 2
+  | 9%nat => eps_nrm tol I c 0 | 10%nat => eps_nrm tol I c 1 | 11%nat => eps_nrm tol I c 2
+  | _ => 0
+  end.
+
+(* indexed like theta = [a00 a01 a10 a11 b0 b1] (2-D) *)
+Definition geo_eps2 (tol : Q) (I : inst) (c m : nat) : Q :=
+  match m with
+  | 0%nat => eps_mom tol I c 0 0 | 1%nat => eps_mom tol I c 0 1
+  | 2%nat => eps_mom tol I c 1 0 | 3%nat => eps_mom tol I c 1 1
+  | 4%nat => eps_nrm tol I c 0 | 5%nat => eps_nrm tol I c 1
+  | _ => 0
+  end.
